@@ -24,6 +24,9 @@ def run(tier):
         prog = Program.load(which=('SRC',), cfg=cfgname)
         chk.clause('C03.D1', 'L/U wired to the filled arrays; count and fix-up before the wrap')
         r11_kinds.run(chk, 'C03.kinds', prog, cfgname, floor=1900)
+        chk.clause('C03.options', 'option-controlled choices of ?gstrf / ?gsitrf (relaxation routine, use of remembered pivots)')
+        for _p in _drv.PRECS:
+            misc.option_choice_rules(chk, 'C03.options', prog, _p, cfgname)
         chk.clause('C03.droprow', 'ilu_?drop_row moves values and subscripts of a row together')
         for p in _drv.PRECS:
             misc.drop_row_alignment(chk, 'C03.droprow', prog, p, cfgname)
